@@ -65,7 +65,15 @@ def main():
                     rep.broken.append('forbidden tokens: ' + '; '.join(hits[:5]))
                     rep.discharged = 0
         rng = random.Random(seed)
-        pm.correspondence(rep, rng, a.tier)
+        tier = a.tier
+        if tier == 'quick' and os.environ.get('VERIF_ESCALATE', '1') == '1':
+            from kdv import fingerprint
+            diff = fingerprint.changed(core.REPO)
+            if diff:
+                tier = 'thorough'
+                rep.notes.append('source differs from the fingerprinted revision in %s: the correspondence and the failing-input '
+                                 'searches run with the thorough tier\'s budget' % ', '.join(diff[:6]))
+        pm.correspondence(rep, rng, tier)
     except core.Infra as e:
         print('INFRA: ' + str(e), file=sys.stderr)
         return 2
